@@ -12,8 +12,14 @@ def nontrivial(d, t, r):
     return r["sizes"][1] >= 2
 
 
+def in_domain(d, t):
+    """the property quantifies over AUTO-CONNECTED router arrays: a row chained by hand without directions (a C05 family)
+    gets its ports in declaration order, which no compass frame describes -- and none is claimed for it"""
+    return all(r.get("auto_connect", True) for r in d.get("routers", []))
+
+
 def run(tier, seed, rep, replay=None):
-    netprops.standard_run(ID, tier, seed, rep, replay, ALGOS, nontrivial, extra_cases=families.xy_suite, rule=
+    netprops.standard_run(ID, tier, seed, rep, replay, ALGOS, nontrivial, extra_cases=families.xy_suite, keep=in_domain, rule=
                           "XY meshes 1..3 (quick) / 1..4 (thorough) squared x boundary-side subsets x role mixes x "
                           "direction on either end of the connection x partial endpoint coverage; every ordered endpoint "
                           "pair, request (address-map destination) and response (requester identity); non-trivial = at "
